@@ -711,6 +711,12 @@ impl Searcher {
         (result.score, result.best_move)
     }
 
+    /// The quiescence value of `board` with the full window (what a leaf is worth).
+    pub fn verif_quiescence(&mut self, board: &Board) -> i32 {
+        self.timer.start(None);
+        self.search_until_quiet(board, NEGATIVE_INFINITY, INFINITY)
+    }
+
     pub fn verif_hash(&self, board: &Board) -> u64 {
         self.zobrist.hash(board)
     }
